@@ -323,6 +323,15 @@ func runDB(args []string, in *bufio.Scanner, out *bufio.Writer) {
 				s.db.GetCatalogForTesting().CreateTable(a[0], schema.NewSchema(cols), txn)
 				shi.GetTransactionManager().Commit(s.db.GetCatalogForTesting(), txn)
 				return "ok:"
+			case "tables":
+				var ts []string
+				for _, tm := range s.db.GetCatalogForTesting().GetAllTables() {
+					ts = append(ts, fmt.Sprintf("%d:%s:%d", tm.OID(), *tm.GetTableName(), tm.Table().GetFirstPageID()))
+				}
+				sort.Slice(ts, func(i, j int) bool {
+					return atoi64(strings.SplitN(ts[i], ":", 2)[0]) < atoi64(strings.SplitN(ts[j], ":", 2)[0])
+				})
+				return "ok:" + strings.Join(ts, ",")
 			case "plan":
 				qi, err := parser.ProcessSQLStr(&rest)
 				if err != nil {
